@@ -323,7 +323,8 @@ class _write_line:
     sample_params = lambda rng: dict(string=rng.choice(['x', 'y\n', 'a' * 254, 'b' * 255, 'c' * 600,
                                                          'd' * 254 + '\n', 'e' * 509]))
     modifies = ['self.writer.out']
-    loops = {0: LoopContract(invariant=_fits_inv, havoc=dict(string=Text()), entry_snapshot=True)}
+    loops = {0: LoopContract(invariant=_fits_inv, havoc=dict(string=Text()), entry_snapshot=True,
+                             never_iterates=True)}
     note = ('proved for lines that fit (at most 254 characters before the line break: one chunk, '
             'the line itself); the chunking of longer lines is checked only natively (BOUNDED: '
             'lengths up to 600) -- every chunk written is at most 255 characters and ends in LF')
